@@ -304,14 +304,16 @@ def mixqModel (cps : List (Nat × Aabb3 Float × V3 Float)) (ops : List POp) : S
           | none => out := out.push "PANIC ;"
   return " ".intercalate out.toList
 
-/-- no update is pending after the prefix: `F` settles, `I` / `R` unsettle, `B` keeps, `C` rebuilds every box afresh -/
+/-- no update is pending after the prefix: `F` settles, `I` / `R` unsettle, `B` keeps, `C` rebuilds every box afresh;
+a `B` on an unsettled tree (outside the documented domain of `rebalance`) voids the box clauses until the next `C` -/
 def settledAfter (ops : List POp) : Bool :=
-  ops.foldl (fun s op => match op with
-    | .ins _ _ => false
-    | .rem _ => false
-    | .refit _ => true
-    | .rebalance _ => s
-    | .rebuild _ _ => true) false
+  let r := ops.foldl (fun (st : Bool × Bool) op => match op with
+    | .ins _ _ => (false, st.2)
+    | .rem _ => (false, st.2)
+    | .refit _ => (true, st.2)
+    | .rebalance _ => (st.1, st.2 || !st.1)
+    | .rebuild _ _ => (true, false)) (false, false)
+  r.1 && !r.2
 
 /-- Oracle for `mixq` / `mixb`: one answer per checkpoint, in order.  At every checkpoint whose prefix is settled the
 answer is judged by brute force over the leaves live at that moment (from the arguments alone): `intersect_aabb` reports
